@@ -9,6 +9,9 @@ package render
 const tolerance = 1e-9
 const epsilon = 1e-12
 
+// emptyMargin is the relative margin used when testing octree/quadtree nodes for emptiness.
+const emptyMargin = 1e-9
+
 //-----------------------------------------------------------------------------
 
 // nextCombination generates the next k-length combination of 0 to n-1. (returns false when done).
